@@ -38,12 +38,21 @@
 (*     sequence of elements, text, comments and PIs (several like-named     *)
 (*     element children included), as built by fn:parse-xml-fragment and by *)
 (*     ElementNode.get_document_node(replace=True)                          *)
+(*   - RootCfg "R6": an Element handed over with fragment=False: it is      *)
+(*     promoted to the single child of a REAL document node (paths start    *)
+(*     with "/" + the step of the root element, like R1 without document-   *)
+(*     level siblings)                                                      *)
+(*   The strings "a" "b" "urn:n" "urn:d" "pi" are ABSTRACT name tokens: a   *)
+(*   configuration of the harness may bind "b" and "urn:n" to other         *)
+(*   concrete names (non-ASCII name characters, URIs starting with a digit  *)
+(*   or containing a quote); nothing in the specification depends on the    *)
+(*   spelling.                                                              *)
 (***************************************************************************)
 EXTENDS Naturals, Sequences, FiniteSets
 
 CONSTANTS N,          \* number of numbered (non-document, non-namespace) nodes
           Kinds,      \* subset of AllKinds
-          RootCfg,    \* "R1" document | "R2" element, implied document | "R3" fragment | "R4" lone leaf | "R5" extended document
+          RootCfg,    \* "R1" document | "R2" element, implied document | "R3" fragment | "R4" lone leaf | "R5" extended document | "R6" promoted element
           Decls,      \* subset of {"none", "p", "dp"}
           DocLevel    \* TRUE: comments/PIs may be children of the document (R1 only)
 
@@ -73,7 +82,7 @@ Base(k) == CASE k \in {"a0", "an", "ad"} -> "ea"
 bkind == [i \in 1..N |-> Base(kind[i])]
 
 X == INSTANCE XDM WITH Kinds   <- {"ea", "eb", "t", "c", "p", "xa", "xc"},
-                       RootCfg <- IF RootCfg = "R4" THEN "R2" ELSE IF RootCfg = "R5" THEN "R1" ELSE RootCfg,
+                       RootCfg <- IF RootCfg = "R4" THEN "R2" ELSE IF RootCfg \in {"R5", "R6"} THEN "R1" ELSE RootCfg,
                        kind    <- bkind
 
 (* namespaces *)
@@ -132,7 +141,7 @@ IsElemX(n) == KindX(n) \in ElemK
 ParentX(n) == IF IsNs(n) THEN NsElem(n) ELSE parent[n]
 
 NsNodes  == {100 * e + NsIdx(pf) : e \in {i \in 1..N : kind[i] \in ElemK}, pf \in PrefixesOf(decl)}
-HasDocX   == RootCfg \in {"R1", "R5"}
+HasDocX   == RootCfg \in {"R1", "R5", "R6"}
 RealNodes == (IF HasDocX THEN {0} ELSE {}) \cup (1..N) \cup NsNodes
 RootElem == CHOOSE i \in 1..N : parent[i] = 0 /\ kind[i] \in ElemK     \* not in R4, R5
 
@@ -172,5 +181,6 @@ StartSet(start) ==
   CASE start = "/"      -> IF RootCfg = "R3" THEN {1} ELSE {0}
     [] start = "root()" -> IF HasDocX THEN {0} ELSE {1}
     [] start = "."      -> {RootElem}
+    [] start = ""       -> {RootElem}       \* a relative path, context item = the root element
 
 =============================================================================
